@@ -411,3 +411,12 @@ Definition spec_step (o : op) (vs : list view) : list view * result :=
 (* number of live holders of a given type (what an instance counter of that type reads) *)
 Definition live_count (t : tag) (st : state) : nat :=
   length (filter (fun p : loc * cell => Nat.eqb (fst (snd p)) t) (st_heap st)).
+
+Fixpoint spec_run (w : list op) (vs : list view) : list view * list result :=
+  match w with
+  | [] => (vs, [])
+  | o :: w' => let (vs1, r) := spec_step o vs in let (vs2, rs) := spec_run w' vs1 in (vs2, r :: rs)
+  end.
+
+(* number of containers of a pool of plain values that hold a value of type t *)
+Definition spec_count (t : tag) (vs : list view) : nat := length (filter (fun x => spec_holds x t) vs).
